@@ -108,6 +108,8 @@ pub fn cells(tier: Tier) -> Vec<CellPlan> {
         Op::MapPre(0, 1),
         Op::MapPre(1, 2),
         Op::MapPre(0, 3),
+        Op::MapPrePredicted(0, 4),
+        Op::Rm(4, TB),
         Op::DespawnPre(0, 1),
         Op::Mut(1, TA),
         Op::Ins(1, TB),
